@@ -139,8 +139,16 @@ Graph(id) ==
       chg   |-> <<{2}, {}, {}, {0}, {}, {}>>,
       cb    |-> <<FALSE, FALSE, FALSE, FALSE, FALSE, FALSE>>,
       lops  |-> {<<1,2>>, <<2,0>>} ]
+  [] id = 12 -> \* coinbase with two wallet outputs; one spender takes the first, another takes the second AND the first spender's output
+    [ n |-> 3,
+      ins   |-> << <<>>, <<<<1,0>>>>, <<<<1,1>>, <<2,0>>>> >>,
+      nouts |-> <<2, 1, 1>>,
+      mine  |-> <<{0,1}, {0}, {0}>>,
+      chg   |-> <<{}, {}, {}>>,
+      cb    |-> <<TRUE, FALSE, FALSE>>,
+      lops  |-> {<<1,0>>} ]
 
-NumGraphs == 11
+NumGraphs == 12
 \* the family is exported once per run so that the driver builds the same transactions
 ASSUME PrintT(<<"GRAPHS", ToJson([i \in 1..NumGraphs |-> Graph(i)])>>)
 
